@@ -176,7 +176,7 @@ func ruleInstantProv(c *RC) *RuleResult {
 					r.fail(fn.Name+"/"+sel.Sel.Name, c.Prog.Pos(as), "tuple assignment to an instant field")
 					continue
 				}
-				src := instantSource(info, fn, as.Rhs[i], 0)
+				src := c.instantSource(info, fn, as.Rhs[i], 0)
 				if src == "Timer.Now" || src == "zero" {
 					r.ok(fn.Name + ": " + sel.Sel.Name + " ← " + src)
 				} else {
@@ -212,7 +212,7 @@ func ruleInstantProv(c *RC) *RuleResult {
 			}
 			okAll := true
 			for _, o := range operands {
-				src := instantSource(info, fn, o, 0)
+				src := c.instantSource(info, fn, o, 0)
 				if src != "Timer.Now" && src != "state" {
 					okAll = false
 					r.fail(fn.Name+"/time.Time."+sel.Sel.Name, c.Prog.Pos(call), "operand of "+sel.Sel.Name+" originates in "+src+", not in Config.Timer.Now() or a stored injected instant")
@@ -247,7 +247,7 @@ func isTimeTime(t types.Type) bool {
 }
 
 // instantSource classifies where a time.Time expression comes from.
-func instantSource(info *types.Info, fn *FuncInfo, e ast.Expr, depth int) string {
+func (c *RC) instantSource(info *types.Info, fn *FuncInfo, e ast.Expr, depth int) string {
 	e = ast.Unparen(e)
 	if depth > 6 {
 		return "unknown"
@@ -291,7 +291,7 @@ func instantSource(info *types.Info, fn *FuncInfo, e ast.Expr, depth int) string
 							obj = info.Uses[id]
 						}
 						if obj == v && i < len(s.Rhs) {
-							src := instantSource(info, fn, s.Rhs[i], depth+1)
+							src := c.instantSource(info, fn, s.Rhs[i], depth+1)
 							if res == "" || res == src {
 								res = src
 							} else {
@@ -303,7 +303,7 @@ func instantSource(info *types.Info, fn *FuncInfo, e ast.Expr, depth int) string
 			case *ast.ValueSpec:
 				for i, id := range s.Names {
 					if info.Defs[id] == v && i < len(s.Values) {
-						src := instantSource(info, fn, s.Values[i], depth+1)
+						src := c.instantSource(info, fn, s.Values[i], depth+1)
 						if res == "" || res == src {
 							res = src
 						} else {
@@ -315,11 +315,49 @@ func instantSource(info *types.Info, fn *FuncInfo, e ast.Expr, depth int) string
 			return true
 		})
 		if res == "" {
+			// a parameter that is never re-assigned: what every caller passes
+			if pi := paramIndexOf(fn, v); pi >= 0 && !c.A.escapes[fn] && !fn.Decl.Name.IsExported() {
+				cs := c.A.callers[fn]
+				for _, s := range cs {
+					if s.Call == nil || pi >= len(s.Call.Args) || s.Call.Ellipsis.IsValid() {
+						return "unknown"
+					}
+					src := c.instantSource(s.Fn.Pkg.TypesInfo, s.Fn, s.Call.Args[pi], depth+1)
+					if res == "" || res == src {
+						res = src
+					} else {
+						res = "mixed(" + res + "," + src + ")"
+					}
+				}
+			}
+		}
+		if res == "" {
 			return "unknown"
 		}
 		return res
 	}
 	return "unknown"
+}
+
+// paramIndexOf: the position of v among fn's declared parameters, -1 if it is not one.
+func paramIndexOf(fn *FuncInfo, v *types.Var) int {
+	if fn.Decl == nil || fn.Decl.Type.Params == nil {
+		return -1
+	}
+	i := 0
+	for _, f := range fn.Decl.Type.Params.List {
+		if len(f.Names) == 0 {
+			i++
+			continue
+		}
+		for _, n := range f.Names {
+			if fn.Pkg.TypesInfo.Defs[n] == v {
+				return i
+			}
+			i++
+		}
+	}
+	return -1
 }
 
 // unixNanoMisuse: the UnixNano() call is used to build a duration.
